@@ -33,7 +33,8 @@ CONSTANTS MaxV,        \* model variables 1..MaxV
           Kinds,       \* operation kinds explored
           OpdsFull, OpdsLabel, OpdsSlice, OpdsRepl, OpdsCtor,  \* operand classes per path
           Labels, Slices, ReadPaths,
-          Admit(_, _)  \* which sealed maps this run explores (sharding)
+          Admit(_, _), \* which sealed maps this run explores (sharding of map slices)
+          AdmitOp(_)   \* which first operations this run explores (sharding of history slices)
 
 NaN == 100
 VarSeq == <<"V1", "V2", "V3">>
@@ -259,6 +260,7 @@ OpsOf(kind) ==
 CanOp == pc = "ops" /\ Len(hist) < MaxOps
 Op(o) ==
   /\ CanOp
+  /\ (Len(hist) = 0 => AdmitOp(o))
   /\ LET k  == Len(hist) + 1
          ra == StepOn(sa, KeyA(o.name), KeyA(o.name2), o, k)       \* through the alias, like the implementation
          rc == StepOn(sc, o.canon, o.canon2, o, k)                 \* the same operation on the variable itself
